@@ -48,7 +48,7 @@ func (s *State) Get(name, sort string) Term {
 		t = s.vc.entryVar(name, sort)
 	case "havoc":
 		g := s.gen
-		if g.prev != nil && (strings.HasPrefix(name, "ghost_") || strings.HasPrefix(name, "seen_")) {
+		if g.prev != nil && (strings.HasPrefix(name, "ghost_") || strings.HasPrefix(name, "seen_") || s.vc.sess.immutableHeaps[name]) {
 			// ghost state is only changed by contracts, never by unknown code
 			t = g.prev.Get(name, sort)
 			break
